@@ -256,10 +256,119 @@ def extract_ow(g):
     g.string('owRLoopCond', ast.unparse(loops[0].test))
 
 
+def class_consts_eval(cls, env=None):
+    """evaluate the integer class constants of a class body (literals and + - * // << | of earlier constants / env)"""
+    vals = dict(env or {})
+
+    def ev(e):
+        if isinstance(e, ast.Constant) and isinstance(e.value, int) and not isinstance(e.value, bool):
+            return e.value
+        if isinstance(e, ast.Name) and e.id in vals:
+            return vals[e.id]
+        if isinstance(e, ast.Attribute) and ast.unparse(e) in vals:
+            return vals[ast.unparse(e)]
+        if isinstance(e, ast.BinOp):
+            a, b = ev(e.left), ev(e.right)
+            ops = {ast.Add: lambda: a + b, ast.Sub: lambda: a - b, ast.Mult: lambda: a * b, ast.FloorDiv: lambda: a // b,
+                   ast.LShift: lambda: a << b, ast.BitOr: lambda: a | b}
+            if type(e.op) in ops:
+                return ops[type(e.op)]()
+        raise KeyError(ast.unparse(e))
+    out = {}
+    for n in cls.body:
+        if isinstance(n, ast.Assign) and len(n.targets) == 1 and isinstance(n.targets[0], ast.Name):
+            try:
+                v = ev(n.value)
+            except (KeyError, ZeroDivisionError):
+                continue
+            vals[n.targets[0].id] = v
+            out[n.targets[0].id] = v
+    return out
+
+
+def need(d, keys, what):
+    for k in keys:
+        X.expect(k in d, '%s: constant %s not found / not an integer expression' % (what, k))
+    return [d[k] for k in keys]
+
+
+def extract_lh(g):
+    tree = X.parse('cflib/crazyflie/mem/lighthouse_memory.py')
+    geo = X.find(tree, 'LighthouseBsGeometry')
+    gc = class_consts_eval(geo)
+    sv, sg = need(gc, ['SIZE_VECTOR', 'SIZE_GEOMETRY'], 'LighthouseBsGeometry')
+    g.nat('lhSizeVector', sv)
+    g.nat('lhSizeGeometry', sg)
+    sf = X.find(geo, 'set_from_mem_data')
+    g.strings('lhGeoReadVectorArgs', [x[0] for x in call_args(sf, 'self._read_vector')])
+    sc = one_struct(sf, 'LighthouseBsGeometry.set_from_mem_data', n=1)
+    emit_struct(g, 'lhGeoValidR', sc[0])
+    a = assigns(sf)
+    g.strings('lhGeoSetTargets', sorted(a))
+    am = X.find(geo, 'add_mem_data')
+    g.strings('lhGeoAddVectorArgs', [x[1] for x in call_args(am, 'self._add_vector')])
+    sc = one_struct(am, 'LighthouseBsGeometry.add_mem_data', n=1)
+    emit_struct(g, 'lhGeoValidW', sc[0])
+    sc = one_struct(X.find(geo, '_add_vector'), '_add_vector', n=1)
+    emit_struct(g, 'lhVecW', sc[0])
+    rv = X.find(geo, '_read_vector')
+    sc = one_struct(rv, '_read_vector', n=1)
+    emit_struct(g, 'lhVecR', sc[0])
+    g.strings('lhVecRTargets', unpack_targets(rv)[0])
+    rets = [ast.unparse(n.value) for n in ast.walk(rv) if isinstance(n, ast.Return)]
+    g.strings('lhVecRReturn', rets)
+    cal = X.find(tree, 'LighthouseBsCalibration')
+    cc = class_consts_eval(cal)
+    ss, scal = need(cc, ['SIZE_SWEEP', 'SIZE_CALIBRATION'], 'LighthouseBsCalibration')
+    g.nat('lhSizeSweep', ss)
+    g.nat('lhSizeCalibration', scal)
+    sf = X.find(cal, 'set_from_mem_data')
+    g.strings('lhCalibUnpackSweepArgs', [x[0] for x in call_args(sf, 'self._unpack_sweep_calibration')])
+    sc = one_struct(sf, 'LighthouseBsCalibration.set_from_mem_data', n=1)
+    emit_struct(g, 'lhCalibTailR', sc[0])
+    g.strings('lhCalibTailRTargets', unpack_targets(sf)[0])
+    us = X.find(cal, '_unpack_sweep_calibration')
+    sc = one_struct(us, '_unpack_sweep_calibration', n=1)
+    emit_struct(g, 'lhSweepR', sc[0])
+    g.strings('lhSweepRTargets', unpack_targets(us)[0])
+    am = X.find(cal, 'add_mem_data')
+    g.strings('lhCalibPackSweepArgs', [x[1] for x in call_args(am, 'self._pack_sweep_calib')])
+    sc = one_struct(am, 'LighthouseBsCalibration.add_mem_data', n=1)
+    emit_struct(g, 'lhCalibTailW', sc[0])
+    sc = one_struct(X.find(cal, '_pack_sweep_calib'), '_pack_sweep_calib', n=1)
+    emit_struct(g, 'lhSweepW', sc[0])
+    mem = X.find(tree, 'LighthouseMemory')
+    mc = class_consts_eval(mem, {'LighthouseBsGeometry.SIZE_GEOMETRY': sg})
+    gs, cs, ps = need(mc, ['GEO_START_ADDR', 'CALIB_START_ADDR', 'PAGE_SIZE'], 'LighthouseMemory')
+    g.nat('lhGeoStart', gs)
+    g.nat('lhCalibStart', cs)
+    g.nat('lhPageSize', ps)
+    g.strings('lhNewDataCompares', X.compares(X.find(mem, 'new_data')))
+    env = {'self.GEO_START_ADDR': 'lhGeoStart', 'self.CALIB_START_ADDR': 'lhCalibStart', 'self.PAGE_SIZE': 'lhPageSize', 'bs_id': 'bs'}
+    for fn, name in (('read_geo_data', 'lhGeoReadAddr'), ('read_calib_data', 'lhCalibReadAddr')):
+        rd = calls(X.find(mem, fn), 'self.mem_handler.read')
+        X.expect(len(rd) == 1 and len(rd[0].args) == 3 and ast.unparse(rd[0].args[0]) == 'self', 'LighthouseMemory.%s: expected one mem_handler.read(self, a, n)' % fn)
+        g.raw('def %s (bs : Nat) : Nat := %s' % (name, to_lean(rd[0].args[1], env)))
+        g.string(name + 'LenSrc', ast.unparse(rd[0].args[2]))
+    for fn, name, var in (('write_geo_data', 'lhGeoWriteAddr', 'geo_addr'), ('write_calib_data', 'lhCalibWriteAddr', 'calib_addr')):
+        f = X.find(mem, fn)
+        a = assigns(f)
+        X.expect(var in a, 'LighthouseMemory.%s: %s = ... not found' % (fn, var))
+        g.raw('def %s (bs : Nat) : Nat := %s' % (name, to_lean(a[var], env)))
+        wr = call_args(f, 'self.mem_handler.write')
+        X.expect(len(wr) == 1, 'LighthouseMemory.%s: expected one mem_handler.write' % fn)
+        g.strings(name + 'Call', wr[0])
+        g.strings(name + 'AddMem', [ast.unparse(c) for c in ast.walk(f) if isinstance(c, ast.Call) and ast.unparse(c.func).endswith('.add_mem_data')])
+    helper = X.find(tree, 'LighthouseMemHelper')
+    hc = class_consts_eval(helper)
+    g.nat('lhNrOfChannels', need(hc, ['NR_OF_CHANNELS'], 'LighthouseMemHelper')[0])
+
+
 def extract(ctx):
-    g = X.GenFile(PID, ['cflib/crazyflie/mem/i2c_element.py', 'cflib/crazyflie/mem/ow_element.py'])
+    g = X.GenFile(PID, ['cflib/crazyflie/mem/i2c_element.py', 'cflib/crazyflie/mem/ow_element.py', 'cflib/crazyflie/mem/lighthouse_memory.py'])
     extract_i2c(g)
     extract_ow(g)
+    extract_lh(g)
     return {'C14.lean': g.render()}
 
 
@@ -591,7 +700,195 @@ def gen_ow(ctx, cases):
         add_parse(bytes(rng.randrange(256) for _ in range(n)), 'random')
 
 
-GENERATORS = [gen_i2c, gen_ow]
+# ---- lighthouse memory ------------------------------------------------------------------------------------
+def mk_geo(f, v):
+    from cflib.crazyflie.mem.lighthouse_memory import LighthouseBsGeometry
+    g = LighthouseBsGeometry()
+    x = [bits_f32(b) for b in f]
+    g.origin = x[0:3]
+    g.rotation_matrix = [x[3:6], x[6:9], x[9:12]]
+    g.valid = bool(v)
+    return g
+
+
+def mk_calib(f, uid, v):
+    from cflib.crazyflie.mem.lighthouse_memory import LighthouseBsCalibration
+    c = LighthouseBsCalibration()
+    x = [bits_f32(b) for b in f]
+    for k in range(2):
+        sw = c.sweeps[k]
+        sw.phase, sw.tilt, sw.curve, sw.gibmag, sw.gibphase, sw.ogeemag, sw.ogeephase = x[7 * k:7 * k + 7]
+    c.uid = uid
+    c.valid = bool(v)
+    return c
+
+
+def show_geo(g):
+    f = list(g.origin) + [x for row in g.rotation_matrix for x in row]
+    return '%s/%d' % ('.'.join(str(f32bits(x)) for x in f), 1 if g.valid else 0)
+
+
+def show_calib(c):
+    f = []
+    for sw in c.sweeps:
+        f += [sw.phase, sw.tilt, sw.curve, sw.gibmag, sw.gibphase, sw.ogeemag, sw.ogeephase]
+    return '%s/%d/%d' % ('.'.join(str(f32bits(x)) for x in f), c.uid, 1 if c.valid else 0)
+
+
+def show_lh(o):
+    from cflib.crazyflie.mem.lighthouse_memory import LighthouseBsGeometry
+    return ('geo ' + show_geo(o)) if isinstance(o, LighthouseBsGeometry) else ('calib ' + show_calib(o))
+
+
+def real_geo_image(f, v):
+    _quiet()
+    try:
+        data = bytearray()
+        mk_geo(f, v).add_mem_data(data)
+        return 'ok ' + hexs(data)
+    except Exception as e:
+        return 'err ' + exc_enum(e)
+
+
+def real_calib_image(f, uid, v):
+    _quiet()
+    try:
+        data = bytearray()
+        mk_calib(f, uid, v).add_mem_data(data)
+        return 'ok ' + hexs(data)
+    except Exception as e:
+        return 'err ' + exc_enum(e)
+
+
+def real_lh_new_data(addr, data):
+    _quiet()
+    from cflib.crazyflie.mem.lighthouse_memory import LighthouseMemory
+    h = FakeMemHandler()
+    lh = LighthouseMemory(3, 0x14, 0x2000, h)
+    got = []
+    lh._update_finished_cb = lambda m, o: got.append(o)
+    try:
+        lh.new_data(lh, addr, bytearray(data))
+    except Exception as e:
+        return 'err ' + exc_enum(e)
+    return 'ok ' + show_lh(got[0])
+
+
+class _FakeCfMem:
+    def __init__(self, mems):
+        self._mems = mems
+
+    def get_mems(self, t):
+        return [m for m in self._mems if m.type == t]
+
+
+class _FakeCf:
+    def __init__(self, mems):
+        self.mem = _FakeCfMem(mems)
+
+
+def real_lh_cfg(size, geos, calibs):
+    """LighthouseMemHelper.write_geos / write_calibs on a zeroed memory, then read_all_geos / read_all_calibs"""
+    _quiet()
+    from cflib.crazyflie.mem.lighthouse_memory import LighthouseMemHelper, LighthouseMemory
+    h = FakeMemHandler(bytes(size))
+    lh = LighthouseMemory(3, 0x14, 0x2000, h)
+    helper = LighthouseMemHelper(_FakeCf([lh]))
+    done = []
+    try:
+        helper.write_geos({bs: mk_geo(f, v) for bs, f, v in geos}, done.append)
+        h.run()
+        helper.write_calibs({bs: mk_calib(f, uid, v) for bs, f, uid, v in calibs}, done.append)
+        h.run()
+    except Exception as e:
+        return 'err ' + exc_enum(e)
+    if done != [True, True]:
+        return 'other done=%r' % (done,)
+    out = []
+    for reader in (lh.read_geo_data, lh.read_calib_data):
+        for bs in range(16):
+            got = []
+            try:
+                reader(bs, lambda m, o: got.append(o))
+                h.run()
+                out.append(show_lh(got[0]))
+            except Exception as e:
+                lh._clear_update_cb()
+                h.q.clear()
+                out.append('E:' + exc_enum(e))
+    # the helper's read_all_* must deliver the same objects when every page can be read
+    if not any(o.startswith('E:') for o in out):
+        res = []
+        helper.read_all_geos(res.append)
+        h.run()
+        helper.read_all_calibs(res.append)
+        h.run()
+        alt = [show_lh(res[0][bs]) for bs in range(16)] + [show_lh(res[1][bs]) for bs in range(16)]
+        if alt != out:
+            return 'other read_all differs: %r' % (alt,)
+    return 'ok ' + ';'.join(out)
+
+
+def canon_f32_fields(s):
+    """quiet signalling NaNs inside dotted float32 lists of a reply"""
+    import re
+    return re.sub(r'\d+(?:\.\d+)+', lambda m: '.'.join(str(qnan32(int(x))) for x in m.group(0).split('.')), s)
+
+
+def gen_lh(ctx, cases):
+    rng = ctx.rng
+    thorough = ctx.tier == 'thorough'
+
+    def fl(n):
+        return [rnd_f32(rng) for _ in range(n)]
+    dots = lambda l: '.'.join(str(x) for x in l)
+    geo_imgs, cal_imgs = [], []
+    for _ in range(400 if thorough else 80):
+        f, v = fl(12), rng.randrange(2)
+        cases.append(('geo_image', 'geo_image %s %d' % (dots(f), v), (lambda f=f, v=v: real_geo_image(f, v)), None,
+                      {'op': 'geo_image', 'f': f, 'valid': v}, ('geo_image', tuple(f), v)))
+        geo_imgs.append(b''.join(struct.pack('<I', x) for x in f) + bytes([v]))
+        f, v = fl(14), rng.randrange(2)
+        uid = rng.choice([0, 1, 0xFFFFFFFF, 1 << 32, -1, 0x12345678]) if rng.random() < 0.5 else rng.getrandbits(32)
+        cases.append(('calib_image', 'calib_image %s %d %d' % (dots(f), uid, v), (lambda f=f, u=uid, v=v: real_calib_image(f, u, v)), None,
+                      {'op': 'calib_image', 'f': f, 'uid': uid, 'valid': v}, ('calib_image', tuple(f), uid, v)))
+        if 0 <= uid < (1 << 32):
+            cal_imgs.append(b''.join(struct.pack('<I', x) for x in f) + struct.pack('<I', uid) + bytes([v]))
+
+    def add_nd(addr, data, why):
+        cases.append(('lh_new_data', 'lh_new_data %d %s' % (addr, hexs(data)), (lambda a=addr, d=data: real_lh_new_data(a, d)), canon_f32_fields,
+                      {'op': 'lh_new_data', 'addr': addr, 'len': len(data), 'why': why}, ('lh_new_data', addr, bytes(data))))
+    for im in geo_imgs[:60 if thorough else 25]:
+        bs = rng.randrange(16)
+        add_nd(bs * 0x100, im, 'geo')
+        m2 = bytearray(im)
+        m2[48] = rng.choice([0, 1, 2, 0x80, 0xFF])        # any non-zero byte is True
+        add_nd(bs * 0x100, bytes(m2), 'geo-valid-byte')
+    for im in cal_imgs[:60 if thorough else 25]:
+        bs = rng.randrange(16)
+        add_nd(0x1000 + bs * 0x100, im, 'calib')
+        m2 = bytearray(im)
+        m2[60] = rng.choice([0, 1, 2, 0x80, 0xFF])
+        add_nd(0x1000 + bs * 0x100, bytes(m2), 'calib-valid-byte')
+    for _ in range(60 if thorough else 25):               # wrong lengths, boundary addresses, wrong container for the address
+        addr = rng.choice([0, 0xF00, 0xFFF, 0x1000, 0x1001, 0x1F00, 0x2000])
+        n = rng.choice([0, 1, 12, 48, 49, 50, 56, 60, 61, 62, 100])
+        add_nd(addr, bytes(rng.randrange(256) for _ in range(n)), 'malformed')
+    for _ in range(60 if thorough else 12):
+        gb = rng.sample(range(16), rng.choice([0, 1, 2, 5, 16]))
+        cb = rng.sample(range(16), rng.choice([0, 1, 2, 5, 16]))
+        if rng.random() < 0.15:
+            gb.append(rng.choice([16, 17, 31]))              # a geometry page that lands in the calibration area
+        geos = [(bs, fl(12), rng.randrange(2)) for bs in gb]
+        calibs = [(bs, fl(14), rng.choice([rng.getrandbits(32)] * 9 + [1 << 32]), rng.randrange(2)) for bs in cb]
+        size = rng.choice([0x2000, 0x2000, 0x2000, 0, 0x1100])
+        line = 'lh_cfg %d %s %s' % (size, ','.join('%d/%s/%d' % (b, dots(f), v) for b, f, v in geos) or '-',
+                                    ','.join('%d/%s/%d/%d' % (b, dots(f), u, v) for b, f, u, v in calibs) or '-')
+        cases.append(('lh_cfg', line, (lambda s=size, g=geos, c=calibs: real_lh_cfg(s, g, c)), canon_f32_fields,
+                      {'op': 'lh_cfg', 'size': size, 'geo_bs': gb, 'calib_bs': cb}, ('lh_cfg', size, tuple(gb), tuple(cb), line[:200])))
+
+
+GENERATORS = [gen_i2c, gen_ow, gen_lh]
 
 
 def correspond(ctx):
